@@ -12,6 +12,7 @@
 //   O <o>                  observe slot o
 //   E <o>                  reparse get_href() of slot o
 //   C <val> [<val>]        can_parse(input[, base])
+//   F <val>                href_from_file(val)
 //   ?<cond> <op...>        conditional prefix: ?v<o> = only if slot o is valid
 #include "exec.h"
 
@@ -169,6 +170,13 @@ int main(int argc, char** argv) {
     } else if (op == "Y") { int o, src; ss >> o >> src; ex.copy(o, src); }
     else if (op == "O") { int o; ss >> o; ex.observe_slot(o); }
     else if (op == "E") { int o; ss >> o; ex.reparse(o); }
+    else if (op == "F") {
+      std::string a; ss >> a;
+      std::string in1 = value(ex, a);
+      Arg arg(in1);
+      std::string r = ada::href_from_file(arg.sv());
+      out().line("{\"e\":\"hff\",\"in\":" + jbytes(in1) + ",\"r\":" + jbytes(r) + "}");
+    }
     else if (op == "C") {
       std::string a, b; ss >> a;
       std::string in1 = value(ex, a);
